@@ -248,15 +248,7 @@ func runC09(ctx *runCtx) {
 	out := make(chan res, len(cases))
 	for i := range cases {
 		go func(i int) {
-			sh, w := "", ""
-			func() {
-				defer func() {
-					if r := recover(); r != nil {
-						sh, w = "panic", fmt.Sprint(r)
-					}
-				}()
-				sh, w = runC09Case(cases[i])
-			}()
+			sh, w := guarded(45*time.Second, func() (string, string) { return runC09Case(cases[i]) })
 			out <- res{i, sh, w}
 		}(i)
 	}
